@@ -569,9 +569,12 @@ def run(ck, build):
     # (this clause rides on the mode summaries: where they do not recognise a function's shape the clause is left undecided
     # for that function - memory safety itself is R-C06-BOUNDS' - instead of declaring the whole property unanalysable)
     def _exact(fn_, *a):
+        snap = ck.snapshot()
         try:
             fn_(*a)
         except Broken as e:
+            # (what the summary recorded before it gave up was computed under a reading of the code that turned out wrong)
+            ck.rollback(snap)
             ck.note("exact output range not decided (shape not recognised by the mode summaries): %s" % str(e)[:200])
     for ks in ("128", "192", "256"):
         _exact(aeadlib.check_gentag, ck, mod, ks, label, rm)
